@@ -182,6 +182,9 @@ class C09(Prop):
             return f"valid call rejected: {io['err']}: {io.get('msg')}"
         nm = len(case["preds"])
         per_model = len(io["rows"]) // nm
+        if case["fkind"] == "numeric" and tc.uniform_edge_tie(case["method"], fvalues(case), mo[0]["rows"]):
+            self.edge_ties_skipped = getattr(self, "edge_ties_skipped", 0) + 1
+            return None  # float edge arithmetic of 'uniform' is outside the model (counted)
         for m, mt in enumerate(mo):
             rows_i = io["rows"][m * per_model:(m + 1) * per_model]
             if len(rows_i) != len(mt["rows"]):
@@ -286,6 +289,9 @@ class C09(Prop):
                 if not (feq(r["p"], pm, 1e-6) or (not math.isnan(pm) and abs(r["p"] - pm) < 1e-9)):
                     return f"p_value {r['p']!r} is not the two-sided t-test with {c - 1} degrees of freedom ({pm!r})"
         return None
+
+    def extra_coverage(self):
+        return {"edge_ties_skipped": getattr(self, "edge_ties_skipped", 0)}
 
     def nontrivial(self, case, io):
         return "rows" in io and sum(1 for r in io["rows"] if r["count"] > 1) >= 2
